@@ -27,11 +27,16 @@ def g_faults(f, old_ds_read=False):
                  (old_ds_read and "DaemonSet" in (f.get("get_fail") or []))))
 
 
-def g_backoff(entries):
+def g_backoff(entries, rs_uid=None):
+    """the controller's failed-pod back-off, keyed <replica set UID>/<replica set name>/<node>: only the entries of the
+    reconciled replica set are handed to the model (a same-named replica set of another namespace has its own; the sync
+    neither reads nor writes the entries of other replica sets: C11_backoff_not_read_from_others / _written_by_others)"""
     out = []
     for e in entries or []:
         parts = e["key"].split("/")
         rs, node = parts[-2], parts[-1]
+        if rs_uid is not None and "/".join(parts[:-2]) != rs_uid:
+            continue
         out.append(gP(gP(P.nm(rs), P.nm(node)), gC("MkBo", gZ(e["backoff"]), gZ(e["last"]))))
     return gL(out)
 
@@ -82,7 +87,7 @@ def encode_ers(step, options):
         if d is not None:
             ods = find(pre, "DaemonSet", op["ns"], d)
     sn = gC("MkErsSnap", gZ(step["now"]), P.g_ers(rs), gO(e, P.g_eds), gL(nodes), gL(pods), gL(sets), gO(ods, P.g_daemonset),
-            g_backoff(step.get("backoff_pre")), gB(bool(options.get("affinity"))),
+            g_backoff(step.get("backoff_pre"), rs["metadata"].get("uid", "")), gB(bool(options.get("affinity"))),
             g_faults(faults_from_calls(step), old_ds_read=e is not None and (e["metadata"].get("annotations") or {}).get(P.A_OLD_DS) is not None))
     creates, deletes, adds, dels, status = [], [], [], [], None
     for c in step["calls"]:
